@@ -50,6 +50,12 @@ def _child(ctx, step, wfd, outp, errp):
         os.close(fe)
         r_, fe = os.pipe()
         os.close(r_)
+    if step.get("stdout") == "epipe":
+        # standard output is a pipe nobody reads (reuse lint | head -0) - at descriptor level, so that a process that
+        # has SIGPIPE at its default disposition is killed by it, as it would be for real
+        os.close(fo)
+        r_, fo = os.pipe()
+        os.close(r_)
     os.dup2(fo, 1)
     os.dup2(fe, 2)
     os.close(fo)
@@ -208,10 +214,21 @@ def run_command(ctx, step):
             rec = json.loads(b"".join(chunks))
         except ValueError:
             rec = None
+    sig = None
+    if fresh:
+        if isinstance(status, int) and status < 0:
+            sig = -status
+    elif os.WIFSIGNALED(status):
+        sig = os.WTERMSIG(status)
     if rec is None:
         rec = {"exit": None, "exc": None, "crashed": False, "trace": [], "fired": [],
                "mut_events": [], "pool": [], "probes": [], "net": [], "dropped": 0,
                "harness": "no-result"}
+        if sig is not None and sig != signal.SIGKILL and not timed_out:
+            # the command itself was killed by a signal (SIGPIPE with the default disposition, say): an outcome of the
+            # command, not trouble of the harness
+            rec["harness"] = None
+            rec["killed_by"] = signal.Signals(sig).name
     rec["timeout"] = timed_out
     rec["status"] = status
     rec["stdout"] = _slurp(outp)
